@@ -98,7 +98,7 @@ def run(rep: Report, tier: str) -> None:
     mods = prog.package.modules
 
     # ---------------------------------------------------------------- C18.a
-    ra = rep.rule("C18.a", "imports: every import of every module is allow-listed; none is a networking / process / FFI facility", floor=100)
+    ra = rep.rule("C18.a", "imports: every import of every module is allow-listed; none is a networking / process / FFI facility", floor=100, definite=True)
     for mod in mods.values():
         rep.modules.add(mod.name)
         for node in ast.walk(mod.tree):
@@ -195,7 +195,7 @@ def run(rep: Report, tier: str) -> None:
         raise AnalysisError("no ezodf.opendoc call found")
 
     # ---------------------------------------------------------------- C18.d
-    rd = rep.rule("C18.d", "who-may-write table: filesystem-mutating call sites are exactly the tabled ones with the tabled path arguments", floor=6)
+    rd = rep.rule("C18.d", "who-may-write table: filesystem-mutating call sites are exactly the tabled ones with the tabled path arguments", floor=6, definite=True)
     table = {
         ("rp2.logger", "<module>", "mkdir"): lambda n: isinstance(n.func.value, ast.Call) and unparse(n.func.value.func) == "Path" and len(n.func.value.args) == 1 and _folds_to(prog, "rp2.logger", n.func.value.args[0]) == "./log",
         ("rp2.logger", "create_logger", "FileHandler"): lambda n: [unparse(a) for a in n.args] == ["LOG_FILE"] and _log_file_under_log(prog),
